@@ -1528,12 +1528,22 @@ func rule098(r *core.Run) {
 	r.Check(scoped >= 8, "R09.8", key("s3bolt", "transactions are closure-scoped"), "", sprintf("%d View/Update transactions, no Begin", scoped), "fewer closure-scoped bolt transactions than the backend's operations need: the anchors moved")
 }
 
-// altValues flattens the phis of a merged value into its alternatives.
+// altValues flattens the phis of a merged value into its alternatives (the
+// values it can take on feasible incoming edges).
 func altValues(v ssa.Value, d int) []ssa.Value {
 	if ph, ok := v.(*ssa.Phi); ok && d < 4 {
 		var out []ssa.Value
-		for _, e := range ph.Edges {
-			out = append(out, altValues(e, d+1)...)
+		seen := map[ssa.Value]bool{}
+		for i, e := range ph.Edges {
+			if i < len(ph.Block().Preds) && !core.LiveEdge(ph.Block().Preds[i], ph.Block()) {
+				continue
+			}
+			for _, a := range altValues(e, d+1) {
+				if !seen[a] {
+					seen[a] = true
+					out = append(out, a)
+				}
+			}
 		}
 		return out
 	}
